@@ -7,6 +7,7 @@ import PygModel.Zip
 import PygModel.Waiter
 import PygProofs.Lemmas.LiftLemmas
 import PygProofs.Lemmas.ZipLemmas
+import PygProofs.Lemmas.WaiterLemmas
 
 namespace Pyg.Props.C19
 open Pyg
@@ -299,13 +300,13 @@ example :
     · rename_i c' hc
       simp [List.lookup] at hc
       split at hc
-      · cases hc; simp [Val.child] at hp
+      · cases hc; simp at hp
       · split at hc
         · cases hc
           cases s with
-          | key _ => simp [Val.child] at hp
+          | key _ => simp at hp
           | idx i =>
-            simp only [Val.child] at hp
+            simp only at hp
             match i, hp with
             | 0, hp => cases q <;> simp [Val.at, Val.child] at hp
             | 1, hp => cases q <;> simp [Val.at, Val.child] at hp
@@ -477,5 +478,60 @@ theorem as_tuple_idem_partial (v : Val) (h : ∀ xs, asTuple v ≠ [.list xs]) :
 
 example : ∀ xs, asTuple (.tuple [.cell (.int 1), .list [.cell (.int 2)]]) ≠ [.list xs] := by
   intro xs h; simp [asTuple] at h
+
+/-! ## waiter
+
+`runEvents w evs` is the task tree of `await waiter(w)` after the completion events `evs`; `.result` is what
+the awaiting caller has received (`none`: still suspended).  `res i` is the result of awaitable `i`. -/
+
+/-- **Confluence.** The whole task tree — not only the final answer — depends only on the *set* of awaitables
+that have completed so far, not on the order (or repetition) of the completion events. -/
+theorem waiter_order_irrelevant (w : W) (res : Nat → Val) (σ τ : List Nat) (h : ∀ i, i ∈ σ ↔ i ∈ τ) :
+    runEvents w (σ.map fun i => (i, res i)) = runEvents w (τ.map fun i => (i, res i)) := by
+  rw [runEvents_eq, runEvents_eq]
+  congr 1
+  funext j
+  have := h j
+  by_cases hs : j ∈ σ <;> simp [hs, ← this]
+
+/-- Once every awaitable of the structure has completed — in whatever order, possibly interleaved with
+events for other awaitables — `waiter` has returned the structure with every awaitable replaced by its
+result. -/
+theorem waiter_any_schedule (w : W) (res : Nat → Val) (σ : List Nat) (h : ∀ i ∈ awaitables w, i ∈ σ) :
+    (runEvents w (σ.map fun i => (i, res i))).result = some (resolve res w) := by
+  rw [runEvents_eq, stateOf_done res _ _ w (Nat.le_refl _)]
+  · rfl
+  · intro i hi; simpa using h i hi
+
+/-- **Schedule independence**, as stated: for every permutation `σ` of the awaitables. -/
+theorem waiter_confluent (w : W) (res : Nat → Val) (σ : List Nat) (h : σ.Perm (awaitables w)) :
+    (runEvents w (σ.map fun i => (i, res i))).result = some (resolve res w) :=
+  waiter_any_schedule w res σ fun _ hi => h.symm.subset hi
+
+/-- … and not before: while some awaitable is pending the caller is still suspended. -/
+theorem waiter_suspended (w : W) (res : Nat → Val) (σ : List Nat) (h : ∃ i ∈ awaitables w, i ∉ σ) :
+    (runEvents w (σ.map fun i => (i, res i))).result = none := by
+  rw [runEvents_eq]
+  apply stateOf_pending res _ _ w (Nat.le_refl _)
+  obtain ⟨i, hi, hn⟩ := h
+  exact ⟨i, hi, by simpa using hn⟩
+
+/-- a structure without awaitables is returned as it is, immediately -/
+theorem waiter_plain (w : W) (res : Nat → Val) (h : awaitables w = []) :
+    (runEvents w []).result = some (resolve res w) := by
+  have := waiter_any_schedule w res [] (by simp [h])
+  simpa using this
+
+/-- non-vacuity: a nested structure, three awaitables, completing in the order 2, 0, 1 -/
+example :
+    let w : W := .list [.aw 0, .val (.int 5), .dict [("k", .tuple [.aw 1, .aw 2])]]
+    [2, 0, 1].Perm (awaitables w) ∧
+    (runEvents w [(2, .cell (.int 12)), (0, .cell (.int 10))]).result = none ∧
+    (runEvents w [(2, .cell (.int 12)), (0, .cell (.int 10)), (1, .cell (.int 11))]).result =
+      some (.list [.cell (.int 10), .cell (.int 5),
+        .dict [("k", .tuple [.cell (.int 11), .cell (.int 12)])]]) := by
+  refine ⟨?_, by decide +kernel, by decide +kernel⟩
+  show [2, 0, 1].Perm [0, 1, 2]
+  exact (List.Perm.swap 0 2 [1]).trans (List.Perm.cons 0 (List.Perm.swap 1 2 []))
 
 end Pyg.Props.C19
